@@ -537,4 +537,13 @@ theorem select_mem_selectAll (rnd : Nat → Nat → Nat → Nat) (g : Group) (t 
     | .error e => selectAll g t strict excl = .error e :=
   select_mem_all rnd g t strict excl
 
+/-- **… and lists nothing else**: every answer in `selectAll`'s list is the answer of `select` for
+some random source.  Together with `select_mem_selectAll`: the list the driver prints is *exactly*
+the set of possible answers, so comparing the real code's random answers as "member of the list"
+hides nothing. -/
+theorem selectAll_lists_only_possible_answers (g : Group) (t : NetType) (strict : Bool) (excl : Option Nat)
+    (l : List SelOk) (hl : selectAll g t strict excl = .ok l) (x : SelOk) (hx : x ∈ l) :
+    ∃ rnd, select rnd g t strict excl = .ok x :=
+  selectAll_complete g t strict excl hl hx
+
 end DaeVerif.C15.Props
